@@ -3,29 +3,39 @@
 import glob, json, os, re
 rows = []
 metas = [json.load(open(p)) for p in sorted(glob.glob("/verif/seeded/*/meta.json"))]
-for m in metas:
+def first(m):
     own = m["breaks_property"]
     if own in m["caught_with_concrete_failing_input"]:
-        o = "yes (failing input)"
-    elif own in m["caught_by"]:
-        o = "yes (broken correspondence, no-failing-input-found)"
-    else:
-        o = "**no**"
+        return "yes"
+    if own in m["caught_by"]:
+        return "yes (no input)"
+    return "**no**"
+def final(m):
+    o = m.get("official_run")
+    if not o:
+        return "—"
+    if o["caught"]:
+        return "yes" if o["with_concrete_failing_input"] else "yes (no-failing-input-found)"
+    return "**no**" if o["exit"] == 0 else f"check broken (exit {o['exit']})"
+for m in metas:
+    own = m["breaks_property"]
     others = [c for c in m["caught_by"] if c != own]
-    summ = re.sub(r"\s+", " ", m["summary"]).replace("|", "/")[:110]
-    rows.append(f"| `{m['id']}` | {summ} | {o} | {', '.join(others) if others else '—'} |")
+    summ = re.sub(r"\s+", " ", m["summary"]).replace("|", "/")[:105]
+    rows.append(f"| `{m['id']}` | {summ} | {first(m)} | {final(m)} | {', '.join(others) if others else '—'} |")
 n = len(metas)
-own_yes = sum(1 for m in metas if m["breaks_property"] in m["caught_by"])
-own_inp = sum(1 for m in metas if m["breaks_property"] in m["caught_with_concrete_failing_input"])
+d_own = sum(1 for m in metas if m["breaks_property"] in m["caught_by"])
+f_own = sum(1 for m in metas if m.get("official_run", {}).get("caught"))
+f_inp = sum(1 for m in metas if m.get("official_run", {}).get("with_concrete_failing_input"))
 anyc = sum(1 for m in metas if m["caught_by"])
-txt = (f"{n} confirmed seeded changes are kept.  Caught by the check of the property they were written against: {own_yes} of {n} "
-       f"({own_inp} with a concrete failing input, {own_yes - own_inp} as a broken correspondence / proof obligation only); caught by at least one check: {anyc} of {n}.\n\n"
-       "| seeded change | what it is | caught by its own property's check | also caught by |\n|---|---|---|---|\n" + "\n".join(rows) + "\n")
-s = open("/verif/DESIGN.md").read()
+txt = (f"{n} confirmed seeded changes are kept (rounds 4-6).  Caught by the check of the property they were written against **at delivery time** (the checks as they "
+       f"were before the change was looked at): {d_own} of {n}; caught by at least one check then: {anyc} of {n}.  **Final checks, official run against /repo**: {f_own} of {n} "
+       f"({f_inp} with a concrete failing input, {f_own - f_inp} as a broken proof obligation / correspondence with `no-failing-input-found`).\n\n"
+       "| seeded change | what it is | own check at delivery | own check, final (official run) | other checks that caught it at delivery |\n|---|---|---|---|---|\n" + "\n".join(rows) + "\n")
+s_ = open("/verif/DESIGN.md").read()
 a, b = "<!-- SEEDED-TABLE-BEGIN -->", "<!-- SEEDED-TABLE-END -->"
-if "SEEDED_TABLE_PLACEHOLDER" in s:
-    s = s.replace("SEEDED_TABLE_PLACEHOLDER", a + "\n" + txt + b)
+if "SEEDED_TABLE_PLACEHOLDER" in s_:
+    s_ = s_.replace("SEEDED_TABLE_PLACEHOLDER", a + "\n" + txt + b)
 else:
-    s = s[:s.index(a)] + a + "\n" + txt + s[s.index(b):]
-open("/verif/DESIGN.md", "w").write(s)
-print(txt[:600])
+    s_ = s_[:s_.index(a)] + a + "\n" + txt + s_[s_.index(b):]
+open("/verif/DESIGN.md", "w").write(s_)
+print(txt[:700])
